@@ -130,8 +130,10 @@ def args_for(interp, m):
     raise ValueError(m)
 
 
-def mutator_task(m, present):
-    label = f"cached={'+'.join(present) or 'nothing'}"
+def mutator_task(m, present, failing=False):
+    """failing: the networkx call inside the mutator raises after it has changed the graph (a malformed
+    item in a batch, a None node ...): the exception propagates, and the lookups must still be coherent"""
+    label = f"cached={'+'.join(present) or 'nothing'}" + (",networkx raises after writing" if failing else "")
 
     def run(interp, c):
         net, K = new_network(interp)
@@ -154,11 +156,20 @@ def mutator_task(m, present):
         interp.inline_only.add(inner.qualname)
         args, kwargs = args_for(interp, m)
         mark = len(c.effects)
+        graph.fail_after_write = failing
         try:
             r = interp.call(BoundMethod(fn, net), args, kwargs)
+            if failing:
+                called = any(e[0] == "g-call" for e in c.effects[mark:])
+                c.oblige("post", f"{m} lets the error of networkx through", T.const(not called), assume_after=False)
+                return
         except PyRaise as e:
-            c.oblige("safe", f"{m} raises nothing ({e.exc.cls_name}: {e.exc.args})", T.FALSE, assume_after=False)
-            return
+            if not failing:
+                c.oblige("safe", f"{m} raises nothing ({e.exc.cls_name}: {e.exc.args})", T.FALSE, assume_after=False)
+                return
+            r = net
+        finally:
+            graph.fail_after_write = False
         eff = c.effects[mark:]
         c.oblige("post", f"{m} returns the network itself", T.const(r is net), assume_after=False)
         c.oblige("frame", "the graph object of the network is never replaced", T.const(net.attrs.get("_graph") is graph), assume_after=False)
@@ -178,6 +189,8 @@ def mutator_task(m, present):
             clash = sorted(deps[p] & writes)
             c.oblige("frame", f"{m} keeps cached {p} only if it cannot change: regions read by {p} {sorted(deps[p])} vs written by {m} {sorted(writes)}",
                      T.const(not clash), assume_after=False, meta={"clash": clash})
+        if failing:
+            return
         # ---- C09: the graph calls
         calls = [e for e in eff if e[0] == "g-call"]
         sets = [e[2] for e in eff if e[0] == "g-write" and e[2] and e[2][0] == "set-node-attr"]
@@ -620,6 +633,7 @@ def all_tasks():
     for m in MUTATORS:
         out.append(mutator_task(m, ()))
         out.append(mutator_task(m, tuple(CACHED)))
+        out.append(mutator_task(m, tuple(CACHED), failing=True))
         for p in CACHED:
             if p not in ("links", "in_links"):
                 out.append(mutator_task(m, (p,)))
